@@ -66,9 +66,11 @@ Definition tagged_results (chunks : list (list A)) : list (nat * list B) :=
 Definition collect (delivered : list (nat * list B)) : list B :=
   concat (map snd (sort_by_index delivered)).
 
-(* the whole of pool.map(computation, sampling_points) for a given pool *)
-Definition parmap (pool : list (nat * list A) -> list (nat * list B)) (n_jobs : positive) (xs : list A) : list B :=
-  collect (pool (tag (chunk_tasks xs (4 * n_jobs)))).
+(* the whole of pool.map(computation, sampling_points) for a given pool: the pool receives the function and the
+   index-tagged tasks and returns (index, result) pairs in completion order *)
+Definition parmap (pool : (list A -> list B) -> list (nat * list A) -> list (nat * list B))
+           (n_jobs : positive) (xs : list A) : list B :=
+  collect (pool computation (tag (chunk_tasks xs (4 * n_jobs)))).
 
 Definition serial (xs : list A) : list B := map f xs.
 
